@@ -423,8 +423,10 @@ func (x *Exec) indexAddr(fr *frame, i *ssa.IndexAddr) Value {
 	case *types.Pointer:
 		at := u.Elem().Underlying().(*types.Array)
 		p := base.(*smt.Term)
-		x.nilCheck(p, "index of nil array pointer")
+		// the array length is static: the bounds check comes first (as gc does),
+		// the nil check when the element is actually addressed
 		x.boundsCheck(idxBad(iv, it, c64(uint64(at.Len()))), "index out of range")
+		x.nilCheck(p, "index of nil array pointer")
 		es := x.L.Of(at.Elem()).Size
 		return smt.Add(p, smt.Mul(idx64(iv, it), c64(uint64(es))))
 	}
@@ -517,6 +519,11 @@ func (x *Exec) makeSlice(fr *frame, i *ssa.MakeSlice) Value {
 	cp := idx64(x.get(fr, i.Cap).(*smt.Term), i.Cap.Type())
 	es := x.L.Of(i.Type().Underlying().(*types.Slice).Elem()).Size
 	x.boundsCheck(smt.BOr(smt.Slt(ln, c64(0)), smt.Sgt(ln, cp)), "makeslice: len out of range")
+	if es > 0 {
+		// implementation limit shared by gc and llgo on 64-bit targets: the
+		// allocation must not exceed maxAlloc = 1<<48 bytes
+		x.boundsCheck(smt.Ugt(cp, c64((uint64(1)<<48)/uint64(es))), "makeslice: cap out of range")
+	}
 	n := x.upperBound(cp, "make cap")
 	a := x.M.Mem.Alloc(n*es, "makeslice")
 	return Agg{a.Ptr(), ln, cp}
